@@ -10,10 +10,15 @@
    specification stream, also when an exception cuts it short.  C20_has_filters_bounded: for the has family
    the filters' own requirement is `hwork` (the examinations of their nested searches), so the bound is closed
    for every path built from the library's own predicates and user callables.
+   C20_actions_bounded: a traced run of k actions made at least (k - 3) / 3 attempts (between two attempts the
+   machine performs at most a report and a catch action).  C20_budget_suffices: hence, for a traced query, every
+   budget beyond 6 x exams delivers the complete answer (or a correct prefix and the budget exception of a search
+   nested in a filter): finding F1 (InfiniteLoopDetected on a finite document) can only occur when six times the
+   examinations the path requires reach the 1 000 000-action budget of one next().
    (The cyclic half -- F2/F3 in known_findings.json -- is outside the JSON-tree model.) *)
 From Coq Require Import List ZArith String Bool PArith.
 From TP Require Import Json PyPrim Machine Api Spec SpecHas.
-From TP.proofs Require Import RefineBase Refine NextLayer Iterate WfRun Query SpecLemmas Top PropLemmas SpecWork.
+From TP.proofs Require Import RefineBase Refine NextLayer Iterate WfRun Query SpecLemmas Top PropLemmas SpecWork RunLength.
 Import ListNotations.
 
 Theorem C20_terminates :
@@ -65,3 +70,27 @@ Example C20_bound_example :
   let p : list (vertex Empty_set) := [VRec; VKey "a"%string] in
   ntr (fst (sem Empty_set sev0 0 p None (root_ctx d))) = 10%nat /\ exams Empty_set sev0 (fun _ _ => 0%nat) p (root_ctx d) = 7%nat.
 Proof. vm_compute. split; reflexivity. Qed.
+
+Theorem C20_actions_bounded :
+  forall (P : Type) ev (src : @source json) (vp : list (vertex P)) (pm : option (@tm json)) k evs z',
+    run P ev src vp (Some pm) k init_state evs z' -> (k <= 3 * ntr_ev evs + 3)%nat.
+Proof. exact run_length_init. Qed.
+Print Assumptions C20_actions_bounded.
+
+Theorem C20_budget_suffices :
+  forall (P : Type) ev (sev : P -> jctx -> res json * list sevent) (src : @source json) (vp : list (vertex P))
+         (pm0 : option (@tm json)),
+    (forall p m, In (VPred p) vp -> wf m ->
+       (fst (ev p m (Some pm0)) = fst (sev p (abs m)) /\
+        map abs_ev (snd (ev p m (Some pm0))) = proj (tracing (Some pm0)) (snd (sev p (abs m)))) \/
+       (exists e, fst (ev p m (Some pm0)) = Exn e /\ budget_exn e = true)) ->
+    (forall p m, ev_results (snd (ev p m (Some pm0))) = []) ->
+    src_wf src ->
+    forall pw, pw_ok P sev pw vp ->
+    exists k : nat, (k <= 6 * exams P sev pw vp (abs (root_match src)))%nat /\
+      forall B fuel, (k < Pos.to_nat B)%nat ->
+        (List.length (sresults (fst (answer P sev src vp (Some pm0)))) < fuel)%nat ->
+        let d := drain P ev src vp (Some pm0) fuel B init_state in
+        complete P sev src vp (Some pm0) d \/ sound_prefix P ev sev src vp (Some pm0) d.
+Proof. exact iterator_spec_exams. Qed.
+Print Assumptions C20_budget_suffices.
